@@ -264,13 +264,48 @@ def all_methods(fl, n, thresholds):
     return acts
 
 
-def drive(ctx, fl, e, vals, acts, weights, instances=None):
+FORMS = ["float", "float", "0-d array", "array of one", "1x1 array", "one row through Engine.input_values"]
+ROUTES = ["constructor", "constructor", "factory and configure", "FLL importer"]
+
+
+def make_activation(fl, kind, params, route):
+    """the same activation method through the routes a user has: the constructor, the factory followed by
+    configure(parameters) (what Engine.configure by name and the FLL importer do), or FllImporter.activation(text)"""
+    text = " ".join(fl.Op.str(p) if isinstance(p, float) else str(p) for p in params)
+    if route == "factory and configure":
+        a = fl.settings.factory_manager.activation.construct(kind)
+        a.configure(text)
+        return a
+    if route == "FLL importer":
+        return fl.FllImporter().activation(f"{kind} {text}".strip())
+    return getattr(fl, kind)(*params)
+
+
+def drive(ctx, fl, e, vals, acts, weights, instances=None, form="float", route="constructor", churn=None):
     rb = e.rule_blocks[0]
     for kind, params in acts:
         # (instances: one activation object per method/parameters reused over all degree vectors - no state may survive)
-        rb.activation = instances.setdefault((kind, params), getattr(fl, kind)(*params)) if instances is not None else getattr(fl, kind)(*params)
-        for k, v in enumerate(vals):
-            e.input_variables[k].value = v
+        with fl.settings.context(decimals=9):
+            rb.activation = instances.setdefault((kind, params), make_activation(fl, kind, params, route)) if instances is not None else make_activation(fl, kind, params, route)
+        ctx.hit("route:" + route)
+        ctx.hit("input form:" + form)
+        if churn is not None:
+            # rules are unloaded, loaded again, disabled and enabled between activations: what an earlier activation left
+            # on a rule (degree, triggered) must not survive its unloading
+            for rule in rb.rules:
+                c = churn.random()
+                if c < 0.12 and rule.is_loaded():
+                    rule.unload()
+                    ctx.hit("event:a rule that took part in an activation is unloaded")
+                elif c < 0.3 and not rule.is_loaded():
+                    rule.load(e)
+                elif c < 0.4:
+                    rule.enabled = not rule.enabled
+        if form == "one row through Engine.input_values":
+            e.input_values = np.array([list(vals)], dtype=float)
+        else:
+            for k, v in enumerate(vals):
+                e.input_variables[k].value = {"float": float, "0-d array": np.array, "array of one": lambda x: np.array([x]), "1x1 array": lambda x: np.array([[x]])}[form](v)
         try:
             e.process()
         except Exception as ex:  # a valid constructed block must be processable
@@ -316,8 +351,8 @@ def run(ctx):
             e = make_engine(fl, n, weights, enabled, loaded)
             acts = all_methods(fl, n, thresholds)
             instances = {} if i % 2 == 0 else None
-            for vals in itertools.product(alpha, repeat=n):
-                drive(ctx, fl, e, vals, acts, weights, instances)
+            for j, vals in enumerate(itertools.product(alpha, repeat=n)):
+                drive(ctx, fl, e, vals, acts, weights, instances, form=FORMS[(i + j) % len(FORMS)], route=ROUTES[i % len(ROUTES)])
             if instances is not None:
                 ctx.hit("event:activation instances reused")
             if i % 5 == 0:
@@ -332,7 +367,11 @@ def run(ctx):
                 e.output_variables[0].enabled = False
             acts = rnd.sample(all_methods(fl, n, (0.0, 0.125, 0.25, 0.3, 0.5, 1.0)), 12)
             vals = [rnd.choice([0.0, 0.125, 0.25, 0.5, 0.5, 1.0, rnd.randrange(0, 17) / 16, 1e-17, 1e-300, 5e-324]) for _ in range(n)]
-            drive(ctx, fl, e, vals, acts, weights)
+            drive(ctx, fl, e, vals, acts, weights, form=rnd.choice(FORMS), route=rnd.choice(ROUTES))
+            # the same block driven again while its rules are unloaded / reloaded / disabled in between
+            for _ in range(3):
+                vals = [rnd.choice([0.0, 0.125, 0.25, 0.5, 0.5, 1.0, rnd.randrange(0, 17) / 16]) for _ in range(n)]
+                drive(ctx, fl, e, vals, rnd.sample(acts, 4), weights, form=rnd.choice(FORMS), route=rnd.choice(ROUTES), churn=rnd)
             if i < 2:
                 ctx.sample("random", {"rules": n, "weights": weights, "enabled": enabled, "loaded": loaded, "inputs": vals, "methods": [[k, list(p)] for k, p in acts[:4]]})
         # degenerate blocks: no rules at all, or no loaded rule
@@ -372,7 +411,11 @@ def run(ctx):
             ctx.require(f"batch:{m}")
     for m in ("Highest", "Lowest", "First", "Last"):
         ctx.require(f"piece:{m}:tie", f"piece:{m}:n>eligible", f"piece:{m}:n<eligible", f"piece:{m}:disabled-rule", f"piece:{m}:unloaded-rule")
-    ctx.require("piece:Threshold:threshold-equals-a-degree", "piece:First:threshold-equals-a-degree", "event:activation instances reused", "piece:block without loaded rules")
+    ctx.require("piece:Threshold:threshold-equals-a-degree", "piece:First:threshold-equals-a-degree", "event:activation instances reused", "piece:block without loaded rules", "event:a rule that took part in an activation is unloaded")
+    for r in ROUTES:
+        ctx.require("route:" + r)
+    for f in FORMS:
+        ctx.require("input form:" + f)
 
 
 def passive(ctx, fl, probe):
